@@ -74,8 +74,10 @@ int main()
     // which build configuration of Sha256.cpp this harness was compiled in (tools/areas/sha.py builds both)
     else if(l.ntok == 2 && strcmp(l.tok[0], "variant") == 0)
     {
-#ifdef _SHA256_UNROLL2
+#if defined(_SHA256_UNROLL2)
       const char* mine = "u2";
+#elif defined(_SHA256_UNROLL)
+      const char* mine = "unroll";
 #else
       const char* mine = "rolled";
 #endif
